@@ -522,6 +522,62 @@ theorem date_period_cross_midnight_witness :
     tripleOK (S "(2019-06-13T22,2019-06-13T01,PT3H)") (some (S "2019-06-13 22:00:00")) (some (S "2019-06-13 01:00:00")) = false := by
   decide
 
+/-- what the method computes from a clean time-period triple `(ta,tb,p)` on a definite date `d`, for ALL inputs: the
+date is prefixed to both points, the duration is copied, and BOTH ends are put on `d` with the period's begin / end time
+of day — also when the period's end time is not after its begin time. -/
+theorem date_period_spec (d : Date) (hv : d.valid = true) (ta tb p : Str) (ca : clean ta) (cb : clean tb) (cp : clean p)
+    (fd pd bt et : DateTime) (hfd : fd.date = d) (hpd : pd.date = d) (hb : bt.secs < 86400) (he : et.secs < 86400) (c : Bool) :
+    (mergeDateAndTimePeriod fd pd (formatDate d) (triple ta tb p) bt et c).1 =
+      .ok (triple (formatDate d ++ ta) (formatDate d ++ tb) p) ⟨d, bt.secs⟩ ⟨d, et.secs⟩ ⟨d, bt.secs⟩ ⟨d, et.secs⟩ := by
+  have hh : (triple ta tb p).head? = some 40 := rfl
+  unfold mergeDateAndTimePeriod
+  simp only [hh, ne_eq, not_true_eq_false, if_false, rangeComponents_triple ta tb p ca cb cp, hfd, hpd,
+    withTime_of d hv bt hb, withTime_of d hv et he]
+
+/-- **a time period on a date, in order**: with `p = luis_time_span(end − begin)` (what the time-period parser writes)
+and begin < end the triple is consistent with the emitted values … -/
+theorem date_period_ok (d : Date) (hv : d.valid = true) (tt1 tt2 f1 f2 : Str) (sb se : Nat) (hse : se < 86400)
+    (h1 : timexTime (84 :: tt1) = some f1) (p1 : parseTime f1 = some sb) (l1 : 2 ≤ tt1.length) (n1 : ∀ x ∈ tt1, x ≠ 44)
+    (h2 : timexTime (84 :: tt2) = some f2) (p2 : parseTime f2 = some se) (l2 : 2 ≤ tt2.length) (n2 : ∀ x ∈ tt2, x ≠ 44)
+    (hlt : sb < se) :
+    tripleOK (triple (formatDate d ++ 84 :: tt1) (formatDate d ++ 84 :: tt2) (luisTimeSpan (se - sb)))
+      (some (fmtDT ⟨d, sb⟩)) (some (fmtDT ⟨d, se⟩)) = true := by
+  have q1 := parsePoint_dt d hv tt1 f1 l1 h1
+  have q2 := parsePoint_dt d hv tt2 f2 l2 h2
+  rw [p1] at q1; rw [p2] at q2
+  have key := span_triple_ok _ _ ⟨d, sb⟩ ⟨d, se⟩ _ _ (no_comma_formatDate_T d tt1 n1) (no_comma_formatDate_T d tt2 n2) q1 q2
+    (fmtPoint_dt _ _) (fmtPoint_dt _ _) (by unfold val; simp only; omega)
+  have e : luisSpan ⟨d, sb⟩ ⟨d, se⟩ = luisTimeSpan (se - sb) := by
+    unfold luisSpan diffSecs
+    have : (((d.ord : Int) - d.ord) * 86400 + ((se : Int) - sb)) = ((se - sb : Nat) : Int) := by omega
+    simp only [this, luisTimeSpanI_nonneg]
+  rw [e] at key
+  exact key
+
+/-- … and **whenever the period crosses midnight** (end time of day ≤ begin time of day, duration written modulo 24 h
+by the time-period parser: `(T22,T01,PT3H)`) the emitted end lies on the same date BEFORE the begin while the TIMEX says
+`n > 0` seconds after: the triple is rejected — for EVERY date and every such pair of times. -/
+theorem date_period_cross_midnight_rejected (d : Date) (hv : d.valid = true) (tt1 tt2 f1 f2 : Str) (sb se : Nat)
+    (hsb : sb < 86400)
+    (h1 : timexTime (84 :: tt1) = some f1) (p1 : parseTime f1 = some sb) (l1 : 2 ≤ tt1.length) (n1 : ∀ x ∈ tt1, x ≠ 44)
+    (h2 : timexTime (84 :: tt2) = some f2) (p2 : parseTime f2 = some se) (l2 : 2 ≤ tt2.length) (n2 : ∀ x ∈ tt2, x ≠ 44)
+    (hle : se ≤ sb) :
+    val ⟨d, se⟩ ≤ val ⟨d, sb⟩ ∧
+    tripleOK (triple (formatDate d ++ 84 :: tt1) (formatDate d ++ 84 :: tt2) (luisTimeSpan (86400 - sb + se)))
+      (some (fmtDT ⟨d, sb⟩)) (some (fmtDT ⟨d, se⟩)) = false := by
+  refine ⟨by unfold val; simp only; omega, ?_⟩
+  have q1 := parsePoint_dt d hv tt1 f1 l1 h1
+  have q2 := parsePoint_dt d hv tt2 f2 l2 h2
+  rw [p1] at q1; rw [p2] at q2
+  have hP : luisTimeSpan (86400 - sb + se) = 80 :: 84 :: (luisTimeSpan (86400 - sb + se)).drop 2 := by simp [luisTimeSpan]
+  have hcP : ∀ x ∈ (luisTimeSpan (86400 - sb + se)).drop 2, x ≠ 44 :=
+    fun x hx => luisTimeSpan_no_comma _ x (List.mem_of_mem_drop hx)
+  have key := tripleOK_PT_wrong _ _ _ _ _ (fmtDT ⟨d, sb⟩) (fmtDT ⟨d, se⟩) (no_comma_formatDate_T d tt1 n1)
+    (no_comma_formatDate_T d tt2 n2) hcP q1 q2 (86400 - sb + se) (ptSeconds_luisTimeSpan _ _)
+    ((((d.ord : Int) - d.ord) * 86400 + ((se : Int) - sb))) (by unfold diffSeconds; rfl) (by omega)
+  rw [← hP] at key
+  simpa [triple] using key
+
 /-- the ordered case is consistent: "tomorrow from 3pm to 5:30pm" -/
 example : (mergeDateAndTimePeriod ⟨⟨2019, 6, 13⟩, 0⟩ ⟨⟨2019, 6, 13⟩, 0⟩ (S "2019-06-13") (S "(T15,T17:30,PT2H30M)")
       ⟨⟨2019, 6, 12⟩, 54000⟩ ⟨⟨2019, 6, 12⟩, 63000⟩ false).1 =
